@@ -683,6 +683,8 @@ def subscript(I, base, key):
         if e in I.arrays or any(s in I.arrays for s in e.free_symbols):
             if isinstance(key, (slice,)) or (isinstance(key, sp.Expr) and key.is_Integer):
                 return e   # generic element / sub-array of an element-wise quantity
+    if isinstance(base, Builtin) and base.name.startswith("typing."):
+        return base           # Sequence[float], Optional[X] ...: type expressions carry no behaviour
     raise AnalysisError(f"subscript of {base!r}")
 
 
@@ -718,6 +720,21 @@ def value_attr(I, obj, name):
         if name == "shape":
             return ()
         raise SymRaise("AttributeError", f"number has no attribute {name}")
+    if isinstance(obj, bytes):
+        if name == "decode":
+            return Builtin(name, lambda *a, **k: obj.decode(*a, **k))
+    if isinstance(obj, dict) and name == "most_common":
+        def most_common(n=None):
+            items = list(obj.items())
+            order = []
+            for i in range(len(items)):
+                pos = len(order)
+                while pos > 0 and compare(I, ast.Gt(), items[i][1], items[order[pos - 1]][1]) is True:
+                    pos -= 1
+                order.insert(pos, i)
+            out = [items[i] for i in order]
+            return out if n is None else out[:concrete_int(n)]
+        return Builtin(name, most_common)
     if isinstance(obj, dict):
         if name == "items":
             return Builtin("items", lambda: list(obj.items()))
@@ -1356,13 +1373,18 @@ def make_builtins(I):
     reg("round", lambda x, n=None: (sp.Integer(round(float(to_expr(x)))) if n is None else to_expr(round(float(to_expr(x)), concrete_int(n))))
         if to_expr(x).is_number else sp.Function("round")(to_expr(x)))
     reg("divmod", lambda a, b: (binop(I, ast.FloorDiv(), a, b), binop(I, ast.Mod(), a, b)))
-    reg("pow", lambda a, b: binop(I, ast.Pow(), a, b))
+    reg("pow", lambda a, b, m=None: binop(I, ast.Pow(), a, b) if m is None else sp.Integer(pow(concrete_int(a), concrete_int(b), concrete_int(m))))
     reg("ord", lambda c: sp.Integer(ord(c)))
     reg("chr", lambda c: chr(concrete_int(c)))
     reg("frozenset", lambda x=(): frozenset(iterate(I, x)))
     reg("filter", lambda f, it: GenVal([x for x in iterate(I, it) if truth(I, I.call(f, [x], {}) if f is not None else x) is sp.true]))
     reg("slice", lambda *a: slice(*[None if x is None else concrete_int(x) for x in a]))
-    reg("complex", lambda re_=0, im_=0: to_expr(re_) + sp.I * to_expr(im_))
+    def b_complex(re_=0, im_=0):
+        if isinstance(re_, str):
+            c_ = complex(re_)
+            return to_expr(c_.real) + sp.I * to_expr(c_.imag)
+        return to_expr(re_) + sp.I * to_expr(im_)
+    reg("complex", b_complex)
     reg("vars", lambda o: I.heap[o.id])
     reg("NotImplementedError", lambda *a, **k: I.new_obj("<NotImplementedError>"))
     reg("StopIteration", lambda *a, **k: I.new_obj("<StopIteration>"))
@@ -1532,6 +1554,12 @@ def external(I, dotted):
                 out.append(acc)
             return out
         return Builtin(dotted, accumulate)
+    if dotted == "typing.TYPE_CHECKING":
+        return False
+    if mod == "typing" and name not in ("NamedTuple",):
+        return Builtin(dotted, lambda *a, **k: (a[0] if a else None))      # cast(), TypeVar(...) etc. have no behaviour of interest
+    if dotted in ("typing", "bisect"):
+        return ModuleVal(dotted, external=dotted)
     if dotted in ("csv", "io", "pathlib", "inspect"):
         return ModuleVal(dotted, external=dotted)
     if dotted == "inspect.signature":
